@@ -322,21 +322,60 @@ theorem verifyText_iff (S : SigScheme) (n k pk t : Bytes) :
         cases hp'
         rw [hw, hd] at hg0; cases hg0
 
-/-- What `signJSONText` signs: the text parses, passes the gate, and the value is signed. -/
+/-- What `signJSONText` signs: the text parses, passes SignJSON's gate (distinct names, paired surrogate escapes), and the
+    value is signed. -/
 theorem signText_ok (S : SigScheme) (n k : Bytes) (sk : S.SK) (t : Bytes) (v' : JVal)
     (h : signJSONText S n k sk t = .ok v') :
-    ∃ p, parse t = some p ∧ p.wellFormed = true ∧ p.noDupKeys = true ∧ signJSON S n k sk p.toJVal = .ok v' := by
+    ∃ p, parse t = some p ∧ pairedOk p = true ∧ p.noDupKeys = true ∧ signJSON S n k sk p.toJVal = .ok v' := by
   unfold signJSONText at h
   cases hp : parse t with
   | none => simp [hp, errAmbiguous] at h
   | some p =>
     simp only [hp] at h
-    by_cases hg : (p.wellFormed && p.noDupKeys) = true
-    · have hg' : p.wellFormed = true ∧ p.noDupKeys = true := by simpa using hg
+    by_cases hg : (pairedOk p && p.noDupKeys) = true
+    · have hg' : pairedOk p = true ∧ p.noDupKeys = true := by simpa using hg
       simp only [hg, Bool.not_true, Bool.false_eq_true, if_false] at h
       exact ⟨p, rfl, hg'.1, hg'.2, h⟩
-    · have hg0 : (p.wellFormed && p.noDupKeys) = false := by simpa using hg
+    · have hg0 : (pairedOk p && p.noDupKeys) = false := by simpa using hg
       simp [hg0, errAmbiguous] at h
+
+mutual
+/-- VerifyJSON's gate is SignJSON's gate plus the UTF-8 clause -/
+theorem pairedOk_of_wellFormed : (p : PVal) → p.wellFormed = true → pairedOk p = true
+  | .null, _ => rfl
+  | .bool _, _ => rfl
+  | .num _, _ => rfl
+  | .str raw _, h => by
+    simp only [PVal.wellFormed, rawStringWellFormed, Bool.and_eq_true] at h
+    simp only [pairedOk, h.2]
+  | .arr xs, h => by
+    simp only [PVal.wellFormed] at h
+    simp only [pairedOk, pairedOkList_of_wellFormed xs h]
+  | .obj kvs, h => by
+    simp only [PVal.wellFormed] at h
+    simp only [pairedOk, pairedOkMembers_of_wellFormed kvs h]
+theorem pairedOkList_of_wellFormed : (xs : List PVal) → wellFormedList xs = true → pairedOkList xs = true
+  | [], _ => rfl
+  | x :: xs, h => by
+    simp only [wellFormedList, Bool.and_eq_true] at h
+    simp only [pairedOkList, pairedOk_of_wellFormed x h.1, pairedOkList_of_wellFormed xs h.2, Bool.and_self]
+theorem pairedOkMembers_of_wellFormed : (kvs : List (Bytes × Bytes × PVal)) → wellFormedMembers kvs = true →
+    pairedOkMembers kvs = true
+  | [], _ => rfl
+  | (raw, _, v) :: kvs, h => by
+    simp only [wellFormedMembers, rawStringWellFormed, Bool.and_eq_true] at h
+    simp only [pairedOkMembers, h.1.1.2, pairedOk_of_wellFormed v h.1.2, pairedOkMembers_of_wellFormed kvs h.2, Bool.and_self]
+end
+
+/-- every text VerifyJSON's gate lets through, SignJSON's gate lets through -/
+theorem strict_signStrict (t : Bytes) (h : strictJSON t = true) : signStrictJSON t = true := by
+  unfold strictJSON at h
+  unfold signStrictJSON
+  cases hp : parse t with
+  | none => simp [hp] at h
+  | some p =>
+    simp only [hp, Bool.and_eq_true] at h ⊢
+    exact ⟨pairedOk_of_wellFormed p h.1, h.2⟩
 
 /-- **A text with a duplicate member name (any depth, `signatures` / `unsigned` included), a lone surrogate
     escape or invalid UTF-8 in any string or member name — or no JSON at all — never verifies**: for every
@@ -347,12 +386,13 @@ theorem ambiguous_never_verifies (S : SigScheme) (n k pk t : Bytes) (h : strictJ
   obtain ⟨p, hp, hw, hd, _⟩ := (verifyText_iff S n k pk t).1 hv
   simp [strictJSON, hp, hw, hd] at h
 
-/-- **… and is never signed.** -/
-theorem ambiguous_never_signed (S : SigScheme) (n k : Bytes) (sk : S.SK) (t : Bytes) (h : strictJSON t = false)
+/-- **A text with a duplicate member name (any depth) or a lone surrogate escape is never signed.**  (Invalid UTF-8 alone
+    is not refused by SignJSON — `PDU.Sign` must not fail on events the constructors accept; VerifyJSON refuses it.) -/
+theorem ambiguous_never_signed (S : SigScheme) (n k : Bytes) (sk : S.SK) (t : Bytes) (h : signStrictJSON t = false)
     (v' : JVal) : signJSONText S n k sk t ≠ .ok v' := by
   intro hs
   obtain ⟨p, hp, hw, hd, _⟩ := signText_ok S n k sk t v' hs
-  simp [strictJSON, hp, hw, hd] at h
+  simp [signStrictJSON, hp, hw, hd] at h
 
 /-- The two classes by name: duplicate keys / ill-formed Unicode somewhere in the parsed text. -/
 theorem dup_or_illformed_never_verifies (S : SigScheme) (n k pk t : Bytes) (p : PVal) (hp : parse t = some p)
@@ -529,14 +569,18 @@ example (S : SigScheme) (n k pk : Bytes) : verifyJSONText S n k pk k7LoneSurroga
   ⟨ambiguous_never_verifies S n k pk _ (by decide), ambiguous_never_verifies S n k pk _ (by decide),
    ambiguous_never_verifies S n k pk _ (by decide)⟩
 
-example (S : SigScheme) (n k : Bytes) (sk : S.SK) (v' : JVal) : signJSONText S n k sk k7NestedDuplicate ≠ .ok v' :=
-  ambiguous_never_signed S n k sk _ (by decide) v'
+example (S : SigScheme) (n k : Bytes) (sk : S.SK) (v' : JVal) : signJSONText S n k sk k7NestedDuplicate ≠ .ok v' ∧
+    signJSONText S n k sk k7LoneSurrogate ≠ .ok v' :=
+  ⟨ambiguous_never_signed S n k sk _ (by decide) v', ambiguous_never_signed S n k sk _ (by decide) v'⟩
+
+/-- the split: SignJSON's gate has no UTF-8 clause, VerifyJSON's has -/
+example : signStrictJSON k7InvalidUtf8Name = true ∧ strictJSON k7InvalidUtf8Name = false := by decide
 
 /-- the gate lets well-formed texts through — a proper surrogate pair included — and the text-level functions then
     agree with the value-level ones: sign a text, verify the canonical bytes of the result -/
 def pairText : Bytes := b!"{\"a\":\"\\ud83d\\ude00\",\"n\":{\"x\":1}}"
 
-example : strictJSON pairText = true ∧
+example : strictJSON pairText = true ∧ signStrictJSON pairText = true ∧
     (match signJSONText toyScheme b!"srv" b!"ed25519:1" (7 : UInt8) pairText with
      | .ok v => accepted (verifyJSONText toyScheme b!"srv" b!"ed25519:1" [7] (encodeCanon v)) &&
                 !accepted (verifyJSONText toyScheme b!"srv" b!"ed25519:1" [8] (encodeCanon v))
